@@ -11,6 +11,7 @@ import (
 	"encoding/hex"
 	"encoding/json"
 	"fmt"
+	"io"
 	"math/big"
 	"math/rand"
 	"os"
@@ -52,6 +53,8 @@ type History struct {
 	// Token2: address of the ERC-20 precompile deployed by message in the middle of the history ("" = none)
 	Token2   string `json:"token2"`
 	DeployAt int    `json:"deployAt"`
+	// Heavy: the history contains a long-running message (see SpinAddr)
+	Heavy bool `json:"heavy"`
 }
 
 // ChurnAddr holds a genesis contract whose only function is a loop of 300 SLOAD + SSTORE over four slots: every
@@ -59,6 +62,12 @@ type History struct {
 var ChurnAddr = common.HexToAddress("0xc0000000000000000000000000000000000c4a01")
 
 var churnCode, _ = hex.DecodeString("60005b8060031680546001019055600101806101" + "2c116002" + "5700")
+
+// SpinAddr holds a genesis contract that loops until its gas is gone (JUMPDEST PUSH1 0 JUMP): three interpreter steps per
+// 12 gas, so a call with a few million gas is milliseconds of work on a plain node and seconds on a node that traces.
+var SpinAddr = common.HexToAddress("0xc0000000000000000000000000000000000c4a02")
+
+var spinCode = []byte{0x5b, 0x60, 0x00, 0x56}
 
 func digest(parts ...string) string {
 	h := sha256.New()
@@ -131,6 +140,7 @@ func Generate(seed int64, ti int, blocks int, out *trace.W, stats map[string]int
 		o.CpcDeployStaking = true
 		o.CpcWhitelist = []string{chain.NewAcct("a1").Acc().String()}
 		o.Contracts = append(o.Contracts, chain.GenContract{Addr: ChurnAddr, Code: churnCode})
+		o.Contracts = append(o.Contracts, chain.GenContract{Addr: SpinAddr, Code: spinCode})
 		if ti == 0 {
 			// an empty vesting account that is expired by every header time (year 2100) but not yet by the wall clock
 			wallEnd = time.Now().Unix() + 3
@@ -185,6 +195,17 @@ func Generate(seed int64, ti int, blocks int, out *trace.W, stats map[string]int
 			txs = append(txs, bz)
 			nextNonce["a0"] = sp.Nonce + 1
 			stats["wall-clock-sensitive-tx"]++
+		}
+		if ti == 1 && b == 1 && o.MaxGas < 0 {
+			// one long-running message (12M gas burnt in a tight loop, ends out of gas): seconds of wall time on a tracing node
+			a := c.Accts[4]
+			seq := c.Seq(a.Addr)
+			to := SpinAddr
+			txd := &ethtypes.LegacyTx{Nonce: seq, GasPrice: big.NewInt(baseFee + 1), Gas: 6_000_000, To: &to, Value: big.NewInt(0)}
+			txs = append(txs, c.EthTx(a, txd))
+			nextNonce["a4"] = seq + 1
+			h.Heavy = true
+			stats["long-running-tx"]++
 		}
 		if r.Intn(3) > 0 {
 			// storage churn: hundreds of store-key constructions on the execution path of one transaction
@@ -412,6 +433,8 @@ func Run(seed int64, n, blocks int, out *trace.W, self string) map[string]int {
 		Replay(h, "r3", nil, 1+len(h.Blocks)/2, emit)
 		// r6: a node that serves RPC requests between the blocks
 		replay(h, "r6", nil, 0, true, emit)
+		// r8: a node started with --evm.tracer access_list (a debugging aid, node-local)
+		Replay(h, "r8", func(o *chain.Opts) { o.EvmTracer = "access_list" }, 0, emit)
 		// r7: a node that answers queries on other goroutines while it executes and commits each block
 		Replay(h, "r7", nil, 0, emit)
 		stats["requests-served-during-execution"] = int(Served)
@@ -425,40 +448,53 @@ func Run(seed int64, n, blocks int, out *trace.W, self string) map[string]int {
 		}
 		// r4: another process, another environment, later
 		if self != "" && ti%4 == 0 {
-			f, err := os.CreateTemp("", "hist*.json")
-			if err != nil {
-				panic(err)
-			}
-			bz, _ := json.Marshal(h)
-			f.Write(bz)
-			f.Close()
-			cmd := exec.Command(self, "replay", "-history", f.Name(), "-rep", "r4")
-			cmd.Env = append(os.Environ(), "GOMAXPROCS=3", "TZ=Asia/Tokyo", "GOGC=20")
-			stdout, err := cmd.Output()
-			os.Remove(f.Name())
-			if err != nil {
-				panic(fmt.Errorf("child replica failed: %v", err))
-			}
-			sc := bufio.NewScanner(bytesReader(stdout))
-			sc.Buffer(make([]byte, 1<<20), 1<<26)
-			for sc.Scan() {
-				ln := sc.Bytes()
-				if len(ln) == 0 || ln[0] != '{' {
-					continue
-				}
-				var m trace.M
-				if err := json.Unmarshal(ln, &m); err != nil {
-					panic(err)
-				}
-				fix(m)
-				out.Emit(m)
-			}
+			childReplica(self, h, "r4", "", []string{"GOMAXPROCS=3", "TZ=Asia/Tokyo", "GOGC=20"}, out)
 			stats["child-process-replicas"]++
+		}
+		// r9: another process started with --evm.tracer json (every interpreter step is written to stderr): the long-running
+		// message of this history takes seconds there and milliseconds elsewhere
+		if self != "" && h.Heavy {
+			childReplica(self, h, "r9", "json", nil, out)
+			stats["tracing-node-replicas"]++
 		}
 		stats["histories"]++
 		stats["blocks"] += len(h.Blocks)
 	}
 	return stats
+}
+
+// childReplica re-executes h in a child process (replica name rep, optional --evm.tracer value, extra environment) and
+// emits its block records.
+func childReplica(self string, h *History, rep, tracer string, env []string, out *trace.W) {
+	f, err := os.CreateTemp("", "hist*.json")
+	if err != nil {
+		panic(err)
+	}
+	bz, _ := json.Marshal(h)
+	f.Write(bz)
+	f.Close()
+	defer os.Remove(f.Name())
+	cmd := exec.Command(self, "replay", "-history", f.Name(), "-rep", rep, "-tracer", tracer)
+	cmd.Env = append(os.Environ(), env...)
+	cmd.Stderr = io.Discard
+	stdout, err := cmd.Output()
+	if err != nil {
+		panic(fmt.Errorf("child replica %s failed: %v", rep, err))
+	}
+	sc := bufio.NewScanner(bytesReader(stdout))
+	sc.Buffer(make([]byte, 1<<20), 1<<26)
+	for sc.Scan() {
+		ln := sc.Bytes()
+		if len(ln) == 0 || ln[0] != '{' {
+			continue
+		}
+		var m trace.M
+		if err := json.Unmarshal(ln, &m); err != nil {
+			panic(err)
+		}
+		fix(m)
+		out.Emit(m)
+	}
 }
 
 // fix restores integer types after a JSON round trip (numbers come back as float64).
